@@ -27,7 +27,10 @@ func MerkleRootHashInternal(hashes [][32]byte) [32]byte {
 
 	// Handle odd number of hashes
 	if len(hashes)%2 == 1 {
-		hashes = append(hashes, hashes[len(hashes)-1])
+		// The full-slice expression caps the capacity at the length, so append always
+		// copies into a new array instead of writing the duplicate into spare capacity
+		// of the caller's backing array.
+		hashes = append(hashes[:len(hashes):len(hashes)], hashes[len(hashes)-1])
 	}
 
 	// Recursively create the intermediate rows
